@@ -56,6 +56,23 @@ Definition tv_head (v : tomlval) : bytes :=
                 ++ opt_list (fun a => str "n:" ++ show_nat (List.length a)) (tv_as_array v)
                 ++ opt_list (fun a => str "m:" ++ show_nat (List.length a)) (tv_as_table v)).
 
+(* map.rs: the iterators of toml::Map are double-ended (delegate_iterator!: next_back, len): reading from the back gives the
+   entries in reverse; alternating next() / next_back() gives first, last, second, last but one, ... each entry once *)
+Fixpoint alternate (fuel : nat) (l : list bytes) : list bytes :=
+  match fuel with
+  | O => []
+  | S f => match l with
+           | [] => []
+           | x :: tl => match rev tl with
+                        | [] => [x]
+                        | y :: rtl => x :: y :: alternate f (rev rtl)
+                        end
+           end
+  end.
+Definition show_back (es : list (bytes * tomlval)) : bytes :=
+  str "r=" ++ plus_join (rev (List.map (fun kv => show_hex (fst kv)) es))
+  ++ str "x=" ++ plus_join (alternate (S (List.length es)) (List.map (fun kv => show_hex (fst kv)) es)).
+
 Fixpoint acc_tv (v : tomlval) : bytes :=
   tv_head v ++
   match v with
@@ -69,6 +86,6 @@ Fixpoint acc_tv (v : tomlval) : bytes :=
   | VTab es =>
     str "{" ++ join (str ",")
       (List.map (fun kv => show_hex (fst kv) ++ str "=" ++ acc_tv (snd kv) ++ str "@"
-                           ++ show_tn (option_map tv_type_str (tv_index_str (fst kv) v))) es) ++ str "}"
+                           ++ show_tn (option_map tv_type_str (tv_index_str (fst kv) v))) es) ++ str "}" ++ show_back es
   | _ => []
   end.
